@@ -16,6 +16,7 @@ INVARIANT Inv_C15_Blocks
 INVARIANT Inv_C15_Lens
 INVARIANT Inv_C15_MD
 INVARIANT Inv_C15_Call
+INVARIANT Inv_C15_MaxNSpan
 INVARIANT Inv_C15_Tags
 INVARIANT Inv_D_Split
 INVARIANT Inv_C15_CallLemma
